@@ -241,12 +241,13 @@ def module_sweep(rng, tier, info):
                 continue
             try:
                 with impl._Urandom(bytes(range(64))):
-                    f(*args)
+                    common.scribble(f(*args))       # ... and the caller empties whatever list / dict it got back
             except Exception:
                 pass
             n += 1
             now = words()
-            probe = "mn_from_ent " + sx(rb(rng.choice(SIZES)).hex())
+            probe = "mn_from_ent " + sx(next((a_ for a_ in args if isinstance(a_, str) and len(a_) in (32, 64) and
+                                              all(c_ in "0123456789abcdef" for c_ in a_)), rb(rng.choice(SIZES)).hex()))
             msg = None if now == before else "the embedded word list changed (first difference at index %d: %r)" % next(
                 ((i, now[i] if i < len(now) else None) for i in range(max(len(now), len(before)))
                  if i >= len(now) or i >= len(before) or now[i] != before[i]))
